@@ -116,7 +116,14 @@ NumberJudge(s) ==
                   ELSE LET f == FFromDecimal(FALSE, DigVals(ip \o fp), e10)
                        IN IF f.c = "unspec" \/ f.c = "inf" THEN [v |-> "na"] ELSE [v |-> "float", f |-> f]
 
+\* keywords are recognised in any letter case
+Lower(s) == [i \in 1..Len(s) |-> IF s[i] >= 65 /\ s[i] <= 90 THEN s[i] + 32 ELSE s[i]]
+KeywordJudge(s) == CASE Lower(s) = <<116, 114, 117, 101>> -> [v |-> "bool", b |-> TRUE]
+                     [] Lower(s) = <<102, 97, 108, 115, 101>> -> [v |-> "bool", b |-> FALSE]
+                     [] Lower(s) \in {<<110, 105, 108>>, <<110, 117, 108, 108>>} -> [v |-> "nil"]
+                     [] OTHER -> [v |-> "ident"]          \* any other word is an identifier
 Judge(r) == CASE r.kind = "num" -> NumberJudge(r.src)
+              [] r.kind = "kw" -> KeywordJudge(r.src)
               [] r.kind = "tmix" -> TripleMixJudge
               [] OTHER -> StringJudge(r.kind, r.src)
 
